@@ -1,6 +1,9 @@
 import SfxProps.C15
 import SfxProofs.ExpAccNeg
 import SfxProofs.ExpAccC15
+import SfxProofs.PowAccC15
+import SfxProofs.ExpAccWideC15
+import SfxProofs.PowAccNeg
 /-
   C15, the exp clause — what is true and what is false of the current tree, both proved:
 
@@ -9,12 +12,25 @@ import SfxProofs.ExpAccC15
       (from `Real.exp_one_gt_d9`), an error of 0.8 % against the allowed `2^-20·e^20 + 64 ulp ≈ 463`.  This is known finding D10
       (known_findings.txt): the Maclaurin series is cut after `frac_nbits` terms with no argument reduction.  The same witness is in
       corpus/C15.req and is replayed against the implementation on every run (it prints KNOWN-FINDING).
-    * `exp_holds_le_four` : the exp clause, word for word, for every supported type and every operand with `|x| ≤ 4`
-      (proved error ≤ (2f+6) ulp one-sided for positive operands; reciprocal for negative ones; the x = 1 special case via
-      `Real.exp_one_gt_d9/lt_d9`).  The accounting stops at 4 for f = 23 (at 5 it gives 69 ulp against the 64 allowed on negative
-      operands); the true validity region is larger (about |x| < 11.8 for I32F32) and is covered by the search oracle on every run.
+    * `exp_holds_wide` : the exp clause, word for word, for every supported type and every operand with `|x| ≤ f/4` (f = fractional
+      bits): that is EVERY I9F23 operand whose result does not overflow (5.75 ≥ ln 256), 8 of the true ≈ 11.8 for I32F32, 16 for I64F64,
+      22 of ≈ 27 for I40F88.  Potential-function bound on the accumulated truncation error (≤ 2(f−2) + (8/9 + 3/8(f−7))·e^x ulp), the
+      omitted tail charged against e^x through Stirling's bound (`Stirling.le_factorial_stirling`), reciprocal error divided by
+      e^x·sum on the negative side.  `exp_holds_le_four` (|x| ≤ 4, sharper constants) is kept.  What remains unproved for exp is only
+      the band between f/4 and the D10 threshold, judged by the search oracle on every run.
 
-  The pow clause (error propagated through `exp(y·ln x)`) is not proved; powi and the conventions are in SfxProps/C15.lean (`C15_partial`).
+    * `pow_holds_small` : the pow clause, word for word, for every supported type, positive base and exponents with `|y·ln x| ≤ 7/2` and
+      `|y| ≤ 2^f / 32` (the second hypothesis holds for EVERY exponent of a type with `intBits + 4 ≤ f`, e.g. I9F23, I16F48, I40F88:
+      `PowAccPf.hY_auto`).  Error propagation: ln (C14) → truncated product → exp (|z| ≤ 4) closes inside the clause's 2^-18 relative margin.
+    * `pow_clause_counterexample` / `pow_clause_false` : the pow clause is FALSE by a second mechanism, independent of D10 — KNOWN FINDING D16
+      (known_findings.txt id D16-pow-ln-abs): C14 allows `ln` an ABSOLUTE error of 8 ulp; `pow` multiplies it by `|y|`, and the clause's
+      term `16·|y|·2^-f` linearises `e^t − 1 ≈ t`, which is only valid while `8·|y|` ulp is of order 1.  Witness (supported type I41F23):
+      `x = 1 + 2^-23`, `y = −2^26`: the model computes `ln x = 0` (0.9999999 ulp truncates to zero), `pow` returns exactly 1.0 through the
+      `exp(0)` early return (kernel-evaluated), the true value is `< 1/1000` and the allowed error is far smaller than 0.999.  Affected: types
+      with `n ≥ 2f + 4` and exponents of magnitude above about `2^f/8`.  The witnesses are in corpus/C15.req and replayed on every run.
+
+  Not proved: exp for `f/4 < |x|` and pow for `7/2 < |y·ln x|` inside the region where the clauses are true; powi and the conventions are in
+  SfxProps/C15.lean (`C15_partial`).
 -/
 namespace Sfx.C15
 open Sfx.C12
@@ -34,5 +50,38 @@ theorem exp_holds_le_four (D : Layout) (h : Supp D) (x : Int) (hx : inRange D x)
     ∀ r it dbg, Trans.run (Trans.exp D D x) = .ok (some r, it) dbg →
       |val D.f r - Real.exp (val D.f x)| ≤ Real.exp (val D.f x) / (2 : ℝ) ^ 20 + 64 / (2 : ℝ) ^ D.f :=
   ExpAccPf.C15_exp_partial D h x hx hsmall
+
+/-- the exp clause for `|x| ≤ f/4` -/
+theorem exp_holds_wide (D : Layout) (h : Supp D) (x : Int) (hx : inRange D x) (hsmall : 4 * |val D.f x| ≤ (D.f : ℝ)) :
+    ∀ r it dbg, Trans.run (Trans.exp D D x) = .ok (some r, it) dbg →
+      |val D.f r - Real.exp (val D.f x)| ≤ Real.exp (val D.f x) / (2 : ℝ) ^ 20 + 64 / (2 : ℝ) ^ D.f :=
+  ExpAccPf.C15_exp_wide D h x hx hsmall
+
+/-- the pow clause for `|y·ln x| ≤ 7/2`, `|y| ≤ 2^f/32` -/
+theorem pow_holds_small (D : Layout) (h : Supp D) (x y : Int) (hx : inRange D x) (hy : inRange D y)
+    (hsmall : |val D.f y * Real.log (val D.f x)| ≤ 7 / 2) (hY : |val D.f y| * 32 ≤ (2 : ℝ) ^ D.f) :
+    ∀ r it dbg, 0 < x → Trans.run (Trans.pow D D x y) = .ok (some r, it) dbg →
+      |val D.f r - (val D.f x) ^ (val D.f y)| ≤
+        (1 / (2 : ℝ) ^ 18 + |val D.f y * Real.log (val D.f x)| / (2 : ℝ) ^ 22 + 16 * |val D.f y| / (2 : ℝ) ^ D.f) * (val D.f x) ^ (val D.f y)
+          + 64 / (2 : ℝ) ^ D.f :=
+  PowAccPf.C15_pow_partial D h x y hx hy hsmall hY
+
+/-- the pow clause fails at `pow::<I41F23>(1 + 2^-23, −2^26)` (finding D16) -/
+theorem pow_clause_counterexample :
+    ∃ r it, Trans.run (Trans.pow ⟨true, 64, 23⟩ ⟨true, 64, 23⟩ 8388609 (-562949953421312)) = .ok (some r, it) false ∧
+      ¬ (|(r : ℝ) / 2 ^ 23 - (((8388609 : Int) : ℝ) / 2 ^ 23) ^ (((-562949953421312 : Int) : ℝ) / 2 ^ 23)| ≤
+        (1 / 2 ^ 18 + |((-562949953421312 : Int) : ℝ) / 2 ^ 23 * Real.log (((8388609 : Int) : ℝ) / 2 ^ 23)| / 2 ^ 22 +
+          16 * |((-562949953421312 : Int) : ℝ) / 2 ^ 23| / 2 ^ 23) *
+          (((8388609 : Int) : ℝ) / 2 ^ 23) ^ (((-562949953421312 : Int) : ℝ) / 2 ^ 23) + 64 / 2 ^ 23) :=
+  PowAccPf.pow_ln_counterexample
+
+/-- the pow clause of `C15_statement` is false on its own (independently of the exp clause) -/
+theorem pow_clause_false :
+    ¬ (∀ D : Layout, Supp D → ∀ x y : Int, inRange D x → inRange D y →
+      ∀ r it dbg, 0 < x → Trans.run (Trans.pow D D x y) = .ok (some r, it) dbg →
+        |val D.f r - (val D.f x) ^ (val D.f y)| ≤
+          (1 / (2 : ℝ) ^ 18 + |val D.f y * Real.log (val D.f x)| / (2 : ℝ) ^ 22 +
+            16 * |val D.f y| / (2 : ℝ) ^ D.f) * (val D.f x) ^ (val D.f y) + 64 / (2 : ℝ) ^ D.f) :=
+  PowAccPf.C15_pow_clause_false
 
 end Sfx.C15
